@@ -8,6 +8,7 @@ from .. import boot  # noqa: F401
 from .. import world as W
 from ..corpus import Session
 from ..runner import sig_of, rearm
+import aioftp
 
 PROPERTY = "C11"
 LEVEL = "fault_enumeration"
@@ -17,6 +18,7 @@ RULE = ("cases = (pool size 0..3) x (1..5 concurrent raw-peer sessions from 8 sc
         "+ cut at loop iteration i=0..12 after the PASV/EPSV line reached the server, under 4 listener start-up "
         "suspension profiles.  distinct = distinct (event order, reply codes, final pool) signatures; non-trivial = "
         "at least one passive listener was requested.")
+RULE += ("  " + 'Also (round 6): a server without anonymous fall-back: a session holding a listener sends a second USER that is rejected (530), a wrong password, or pipelines PASV / USER / EPSV, and then quits, is cut or logs in again.')
 ASSUMPTIONS = [
     "network is the in-memory model of harness/simnet.py (validated against loopback on fault-free scripts)",
     "listener start-up has 0..2 suspension points before and 1..2 after bind (CPython 3.12 has gather+sleep(0))",
@@ -48,6 +50,16 @@ TEMPLATES = {
     "relogin_cut": LOGIN + [["pasv"], ["login"], ["cut", "rst"]],
     "pipe_pasv_cut": LOGIN + [["pipeline", ["PASV", "EPSV"]], ["cut", "rst"]],
 }
+# a server without anonymous fall-back: a second USER with an unknown name is rejected (530) and leaves the session without a user
+ALICE = [["connect"], ["login", "alice", "pw"]]
+NOANON = {
+    "rejected_pasv_quit": ALICE + [["pasv"], ["cmd", "USER mallory"], ["quit"]],
+    "rejected_epsv_data_cut": ALICE + [["epsv"], ["data"], ["cmd", "USER mallory"], ["cut", "rst"]],
+    "rejected_then_ok": ALICE + [["pasv"], ["cmd", "USER mallory"], ["login", "alice", "pw"], ["epsv"], ["data"], ["xfer", "RETR", "/f.bin"], ["quit"]],
+    "rejected_pw": ALICE + [["pasv"], ["login", "alice", "wrong"], ["cmd", "PWD"], ["quit"]],
+    "rejected_pipe": ALICE + [["pipeline", ["PASV", "USER mallory", "EPSV"]], ["cut", "fin"]],
+    "plain": ALICE + [["epsv"], ["data"], ["xfer", "RETR", "/f.bin"], ["quit"]],
+}
 
 
 def pool_ports(server):
@@ -72,7 +84,12 @@ async def execute(net, hyg, plan):
         if conn.port == 2121 and conn.id < len(lats) * 2:
             pass
     host = plan.get("host", "127.0.0.1")      # "::1": PASV is answered 503 there, EPSV works
-    world = W.World(net, tree={"/f.bin": b"x" * 5000}, data_ports=conf, host=host)
+    login = LOGIN
+    users = None
+    if plan.get("noanon"):
+        login = ALICE
+        users = lambda base: [aioftp.User("alice", "pw", base_path=base)]  # noqa: E731
+    world = W.World(net, tree={"/f.bin": b"x" * 5000}, data_ports=conf, host=host, users=users)
     await world.start()
     server = world.server
     for port, plan_errs in (plan.get("faults") or {}).items():
@@ -188,7 +205,7 @@ async def execute(net, hyg, plan):
     for j in range(n):
         s = Session(net, 2121, name=f"fresh{j}", host=host)
         fresh.append(s)
-        await s.run(LOGIN + [["epsv" if ":" in host else "pasv"]])
+        await s.run(login + [["epsv" if ":" in host else "pasv"]])
         codes = s.flat_codes()
         got.append((codes[-1] if codes else None, s.pasv_port if codes and codes[-1] in ("227", "229") else None))
     mon["blackbox_reopen"] += 1
@@ -199,7 +216,7 @@ async def execute(net, hyg, plan):
                      "detail": {"reopen": got}})
     if n == 0:
         s = Session(net, 2121, name="fresh0", host=host)
-        await s.run(LOGIN + [["epsv" if ":" in host else "pasv"]])
+        await s.run(login + [["epsv" if ":" in host else "pasv"]])
         mon["blackbox_reopen"] += 0
         if s.flat_codes()[-1:] != ["421"]:
             viol.append({"key": "empty-pool-not-421", "msg": f"PASV with an empty pool answered {s.flat_codes()}"})
@@ -327,6 +344,18 @@ def gen_cases(tier, seed):
             cases.append({"kind": "single", "seed": seed, "plan": {"n": n, "scripts": [TEMPLATES[name]], "yields": [1, 1]}})
             cases.append({"kind": "single", "seed": seed, "plan": {"n": n, "scripts": [TEMPLATES[name], TEMPLATES["hold"]],
                                                                    "offsets": [0.003, 0], "yields": [2, 1]}})
+    # sessions that lose their user by a rejected second USER / PASS while holding a listener
+    for name in sorted(NOANON):
+        for n in (1, 2):
+            cases.append({"kind": "single", "seed": seed, "plan": {"n": n, "noanon": True, "scripts": [NOANON[name]], "yields": [1, 1]}})
+            cases.append({"kind": "single", "seed": seed, "plan": {"n": n, "noanon": True, "scripts": [NOANON[name], NOANON["plain"]],
+                                                                   "offsets": [0, 0.002], "yields": [1, 2]}})
+    if tier == "thorough":
+        for name in sorted(NOANON):
+            if NOANON[name][-1][0] != "cut":
+                for n in (1, 2):
+                    cases.append({"kind": "cutenum", "kinds": ["rst", "fin"], "who": 0,
+                                  "plan": {"n": n, "noanon": True, "scripts": [NOANON[name]], "mss": 1460}, "seed": seed})
     # exhaustive cut positions per script
     cut_scripts = ["retr", "epsv2", "two"] if tier == "quick" else ["retr", "epsv2", "two", "hold", "pasv_fincut", "relogin_pasv", "relogin_epsv_data"]
     for name in cut_scripts:
